@@ -7,6 +7,7 @@ import (
 	"regexp"
 	"sort"
 	"strings"
+	"time"
 
 	"github.com/coreruleset/crs-toolchain/v2/zz_verif/core"
 )
@@ -22,6 +23,7 @@ var c15Decoys = []core.Tree{
 	{"crs/tests/regression/tests/REQUEST-123-TEST/12345.yaml": testYaml, "crs/tests/regression/654321.yaml.orig": testYaml, "crs/tests/654321.yaml": testYaml},
 	{"other/regex-assembly/999999.ra": " z\n", "other/rules/REQUEST-999-O.conf": setupExample, "other/tests/regression/tests/T/999999.yaml": testYaml, "other/crs-setup.conf.example": setupExample},
 	{"outer.conf": setupExample, "outer.ra": " q\n", "654321.yaml": testYaml, "x.example": setupExample},
+	{"crs/regex-assembly/.gitkeep": "", "crs/regex-assembly/include/.gitkeep": "", "crs/rules/.gitkeep": "", "crs/tests/regression/tests/.gitkeep": "", "crs/tests/regression/tests/REQUEST-123-TEST/.gitkeep": "", "crs/.editorconfig": "root = true\n"},
 }
 
 type c15Cmd struct {
@@ -51,6 +53,8 @@ func c15Commands() []c15Cmd {
 		{Name: "format --check", Args: []string{"regex", "format", "--check", "123456"}, Inspect: true},
 		{Name: "format --check chain", Args: []string{"regex", "format", "-c", "123457-chain1"}, Inspect: true},
 		{Name: "format --check include", Args: []string{"regex", "format", "-c", "inc"}, Inspect: true},
+		{Name: "format --check upper-case class", Args: []string{"regex", "format", "-c", "upper"}, Inspect: true},
+		{Name: "format --check unbalanced", Args: []string{"regex", "format", "-c", "unbalanced"}, Inspect: true},
 		{Name: "format --all --check", Args: []string{"regex", "format", "--all", "--check"}, Inspect: true},
 		{Name: "format --all --check github", Args: []string{"-o", "github", "regex", "format", "-a", "-c"}, Inspect: true},
 		{Name: "renumber --check", Args: []string{"util", "renumber-tests", "--check", "123456"}, Inspect: true},
@@ -63,6 +67,8 @@ func c15Commands() []c15Cmd {
 		{Name: "format chain", Args: []string{"regex", "format", "123457-chain1.ra"}, Targets: one("crs/regex-assembly/123457-chain1.ra")},
 		{Name: "format include", Args: []string{"regex", "format", "inc"}, Targets: one("crs/regex-assembly/include/inc.ra")},
 		{Name: "format --all", Args: []string{"regex", "format", "--all"}, Targets: raFiles},
+		{Name: "format upper-case class", Args: []string{"regex", "format", "upper"}, Targets: one("crs/regex-assembly/include/upper.ra")},
+		{Name: "format unbalanced", Args: []string{"regex", "format", "unbalanced"}, Targets: one("crs/regex-assembly/include/unbalanced.ra")},
 		{Name: "update", Args: []string{"regex", "update", "123456"}, Targets: one("crs/rules/REQUEST-123-TEST.conf")},
 		{Name: "update chain", Args: []string{"regex", "update", "123457-chain1"}, Targets: one("crs/rules/REQUEST-123-TEST.conf")},
 		{Name: "update --all", Args: []string{"regex", "update", "--all"}, Targets: rulesConf},
@@ -101,6 +107,9 @@ func c15Sandbox(mask int) core.Tree {
 		t["crs/"+k] = v
 	}
 	t["crs/regex-assembly/sub/deeper/"] = ""
+	// files the linter complains about: the complaint must not turn a check into a rewrite
+	t["crs/regex-assembly/include/upper.ra"] = "##!+ i\n   [Bb]lah\n\n\n"
+	t["crs/regex-assembly/include/unbalanced.ra"] = "##!> assemble\n a\n"
 	for i, d := range c15Decoys {
 		if mask&(1<<i) != 0 {
 			for k, v := range d {
@@ -120,11 +129,14 @@ func C15(r *core.Run) {
 	}
 	var masks []int
 	if r.Thorough() {
-		for m := 0; m < 128; m++ {
+		for m := 0; m < 256; m++ {
 			masks = append(masks, m)
 		}
 	} else {
-		masks = []int{0, 127, 1, 2, 4, 8, 16, 32, 64, 126, 125, 123, 119, 111, 95, 63}
+		masks = []int{0, 255}
+		for i := range c15Decoys {
+			masks = append(masks, 1<<i, 255&^(1<<i))
+		}
 	}
 	type in struct {
 		Dir   string
@@ -159,8 +171,15 @@ func C15(r *core.Run) {
 					r.Inflight(fmt.Sprint(mask, cmd.Name, mode))
 					// HOME and TMPDIR live inside the sandbox so that writes there are seen as well
 					os.MkdirAll(filepath.Join(sb, "home"), 0o755)
+					env := []string{"HOME=" + filepath.Join(sb, "home"), "TMPDIR=" + filepath.Join(sb, "home"), "XDG_CACHE_HOME=" + filepath.Join(sb, "home/.cache"), "XDG_CONFIG_HOME=" + filepath.Join(sb, "home/.config")}
+					for _, v := range []string{"GITHUB_OUTPUT", "GITHUB_STEP_SUMMARY", "GITHUB_ENV"} {
+						p := filepath.Join(sb, "home", strings.ToLower(v))
+						os.WriteFile(p, nil, 0o644)
+						os.Chtimes(p, time.Unix(978307200, 0), time.Unix(978307200, 0))
+						env = append(env, v+"="+p)
+					}
 					before = core.Snapshot(sb)
-					res := core.RunCLI(r.Crs, cwd, cmd.Stdin, []string{"HOME=" + filepath.Join(sb, "home"), "TMPDIR=" + filepath.Join(sb, "home")}, args...)
+					res := core.RunCLI(r.Crs, cwd, cmd.Stdin, env, args...)
 					after := core.Snapshot(sb)
 					changed := before.Diff(after, true)
 					out.Runs++
